@@ -38,7 +38,7 @@ Definition c02_ok (c : c02_case) : bool :=
   match run_moves cf (sys_init cf) ms with
   | None => false
   | Some s =>
-      let s' := advance 64 cf s tend in
+      let s' := advance 4096 cf s tend in
       out_eqb (s_cout s') oc && out_eqb (s_sout s') os &&
       Bool.eqb (e_est (s_c s')) ce && Bool.eqb (e_est (s_s s')) se
   end.
@@ -48,7 +48,7 @@ Definition c02_model_out (c : c02_case) :=
   let '(cf, ms, tend, oc, os, ce, se) := c in
   match run_moves cf (sys_init cf) ms with
   | None => None
-  | Some s => let s' := advance 64 cf s tend in
+  | Some s => let s' := advance 4096 cf s tend in
               Some (s_cout s', s_sout s', e_est (s_c s'), e_est (s_s s'), e_flight (s_c s'), e_flight (s_s s'))
   end.
 
@@ -58,3 +58,8 @@ Fixpoint mismatches_from {A} (ok : A -> bool) (i : N) (l : list A) : list N :=
   | c :: l' => if ok c then mismatches_from ok (i + 1)%N l' else i :: mismatches_from ok (i + 1)%N l'
   end.
 Definition mismatches {A} (ok : A -> bool) (l : list A) : list N := mismatches_from ok 0%N l.
+
+(* the same flight structure under another timer configuration *)
+Definition retime (c : cfg) (i : N) (backoff : bool) : cfg :=
+  {| c_hv := c_hv c; c_psk := c_psk c; c_resume := c_resume c; c_initial := i; c_backoff := backoff;
+     c_fl := c_fl c |}.
